@@ -233,6 +233,14 @@ def tlc_ok_or_raise(res, what, allow_rc=(0,)):
     """A TLC run that is infrastructure (parse error, evaluation error, assumption failure)
     is a tool error, not a verdict."""
     if res.rc not in allow_rc:
+        # the message proper is often buried under the printed behaviour: pull the Error: paragraphs out
+        errs = []
+        ls = res.lines
+        for i, ln in enumerate(ls):
+            if ln.startswith("Error:") and "behavior up to this point" not in ln:
+                errs.append(" | ".join(x.strip() for x in ls[i:i + 6])[:700])
+        if errs:
+            raise ToolError("TLC failed for %s (rc=%d): %s" % (what, res.rc, " || ".join(errs[:4])))
         raise ToolError("TLC failed for %s (rc=%d):\n%s" % (what, res.rc, res.out[-5000:]))
 
 
